@@ -30,7 +30,7 @@ TRUSTED = ['Lean 4.33 kernel; axioms of every C05_* theorem ⊆ {propext, Classi
            'LAPACK/scipy per-block routines (svd, qr, eigh, eig, expm): assumed to satisfy the post-conditions that '
            'the worker re-checks on every call actually made', 'numpy for the dense oracle; serialiser vlib/npcio.py']
 ASSUMPTIONS = ['entries are small integers: block copies are exact, LAPACK results are compared with tolerance '
-               '1e-9*max(1,|A|_F) (1e-5 for eigenvalues of non-normal blocks)',
+               '1e-9*max(1,|A|_F) (1e-4 for eigenvalues of non-normal blocks)',
                'theorems on dense products are stated in block-structured indices; the flat re-indexing is the '
                'bijection C05_locate_sum']
 
